@@ -333,7 +333,7 @@ impl From<&Ipv4Packet> for Vec<u8> {
     fn from(ipv4: &Ipv4Packet) -> Self {
         let header = ipv4.header.borrow().clone();
         let mut bytes: Vec<u8> = (&header).into();
-        if let Some(inner) = ipv4.inner.borrow().clone() {
+        if let Some(inner) = ipv4.inner.borrow().clone().filter(|i| !i.is_error()) {
             let data: Vec<u8> = inner.as_ref().into();
             bytes.extend_from_slice(&data);
         } else {
